@@ -172,8 +172,9 @@ def decide(prop, tier, seed, args, t0):
     known_lines = {}
     for o in all_obs:
         if o.get("finding") and o["status"] == "discharged":
-            f = known.get(o["finding"], {})
-            known_lines[o["finding"]] = f.get("what", o["finding"])
+            for fid in o["finding"].split("+"):
+                f = known.get(fid, {})
+                known_lines[fid] = f.get("what", fid)
     for b in bounded_out:
         for k in b.get("known", []):
             known_lines[k["id"]] = k.get("what", k["id"])
